@@ -535,6 +535,26 @@ class Check:
 
 
 def replay(path):
+    if path.endswith(".json") and not path.endswith(".meta.json"):
+        # a crash / hang replay: re-execute the recorded case; it is reproduced if the harness dies again
+        meta = json.load(open(path))
+        binp = build_harness(meta.get("profile", "release"), meta.get("features") or None)
+        wb = os.path.join(WORK, "replay")
+        shutil.rmtree(wb, ignore_errors=True)
+        try:
+            s = drv(binp, meta["scenario"], meta.get("seed", 1), meta.get("tier", "quick"), os.path.join(wb, "re"), 1,
+                    only=meta.get("case") or None)
+        except HarnessCrash as hc:
+            print("re-executed on current tree: process died again (rc=%s) in case %s" % (hc.rc, hc.case))
+            print("VIOLATION property=%s replay=%s" % (meta.get("property"), path))
+            return 1
+        res2 = tlc_trace_many(s["shards"], os.path.join(wb, "re"))
+        r2 = list(res2.values())[0]
+        print("re-executed on current tree:", json.dumps({"fails": r2["fails"], "consumed": r2["consumed"]}))
+        if r2["fails"]:
+            print("VIOLATION property=%s replay=%s" % (meta.get("property"), path))
+            return 1
+        return 0
     meta = {}
     try:
         meta = json.load(open(path + ".meta.json"))
